@@ -161,6 +161,52 @@ func c14(tier string, args []string) int {
 				scenarios = append(scenarios, sc)
 			}
 		}
+		// a request about one round while the poller handles the opening proposal of ANOTHER
+		// round (which puts an operation of that round into the same pool): the stores are shared
+		// by all rounds, whatever a lock is keyed on
+		{
+			idx := make([]int, rec.W.N)
+			for i := range idx {
+				idx[i] = i
+			}
+			req2 := rec.W.InitProposal(rec.W.T, idx)
+			req2.CreatedAt = world.T0.Add(7)
+			payload := world.MustJSON(req2)
+			second := world.SignedMessage(world.RoundID(payload), string(spf.EventInitProposal), payload, rec.W.Nodes[(v+1)%rec.W.N].Name, rec.W.Nodes[(v+1)%rec.W.N].KeyPair.Priv, "")
+			kinds := map[string]bool{}
+			for k, sn := range rec.PreSnaps[v] {
+				pool, del := sn.RawOps()
+				for id, o := range pool {
+					if _, d := del[id]; d {
+						continue
+					}
+					kind := "submit-result"
+					if fsm.State(o.Type) == spf.StateAwaitParticipantsConfirmations {
+						kind = "approve-participation"
+					}
+					if kinds[kind] {
+						continue
+					}
+					id := id
+					sc := c14Scenario{View: v, Base: sn, Log: append(append([]storage.Message{}, rec.Log[:k]...), second)}
+					if kind == "approve-participation" {
+						sc.API = func(nd *world.Node) error {
+							return nd.Svc.ApproveParticipation(&dto.OperationIdDTO{OperationID: id})
+						}
+					} else {
+						res := results[fmt.Sprintf("%d|%s", v, id)]
+						if res == nil {
+							continue
+						}
+						sc.API = func(nd *world.Node) error { return nd.SubmitResult(cloneOp15(res)) }
+					}
+					kinds[kind] = true
+					sc.APITag = kind + "+second-round"
+					sc.Name = fmt.Sprintf("node%d@%d %s (round A) || one poll tick over the opening proposal of a second round", v, k, kind)
+					scenarios = append(scenarios, sc)
+				}
+			}
+		}
 		// state reset while the poller applies messages
 		for _, k := range []int{4, rec.DKGEnd - 2} {
 			if k+2 <= len(rec.Log) && k < len(rec.Snaps[v]) {
